@@ -1,4 +1,5 @@
 import QcelVerif.Model.ConstantsShipped
+import QcelVerif.Model.ConstantsSrc
 import QcelVerif.Lib.Proto
 /-! Line-protocol driver for the C02 model.
 
@@ -8,6 +9,12 @@ import QcelVerif.Lib.Proto
   A <ctx>                     -> `ok <hex attr>,…`                 (float attributes in first-set order)
   D <add|sub|mul|div> <hex decimal text> <hex decimal text> -> `ok <sign> <coeff> <exp>` | `err`
   F <hex decimal text>        -> `ok <sign> <coeff> <exp> <bits>`  (Decimal(text) and float(Decimal(text))) | `err`
+  S <ctx> <hex name>          -> `ok e <dec|none> | s <dec|none> | m <dec|none>`   three views of one computed entry:
+      e = the SOURCE-DERIVED tuple of exactly that name (Gen/ContextSrc.lean, translated from context.py) evaluated on the
+          table the code evaluates it on (`none`: no such tuple — legacy names, calorie);
+      s = the entry under the lower-cased name in the context built from the source-derived pieces (`pcSrc`);
+      m = the same entry in the hand-written model's context (specification formulas)
+  M <hex text>                -> `ok <hex mangleSrc text> <hex mangle text>`   (source translate table | model)
 -/
 open QcelVerif QcelVerif.Constants QcelVerif.PStr QcelVerif.Proto
 
@@ -42,6 +49,30 @@ def showErr : Err → String
 structure Ctxs where
   c14 : Option Ctx
   c18 : Option Ctx
+  s14 : Option PC := pcSrc2014
+  s18 : Option PC := pcSrc2018
+  p14 : Option PC := Src.pre2014
+  p18 : Option PC := Src.pre2018
+
+def showOptDec : Option Dec → String
+  | some d => showDec d
+  | none => "none"
+
+def entryOf (o : Option PC) (name : List Nat) : Option Dec :=
+  match o with
+  | some pc => (pcFind pc (pack (lower name))).map (·.data)
+  | none => none
+
+def stepS (cs : Ctxs) (cn : String) (name : List Nat) : String :=
+  let (is18, known) := if cn == "2018" then (true, true) else if cn == "2014" || cn == "default" then (false, true) else (false, false)
+  if !known then "bad-op"
+  else
+    let pre := if is18 then cs.p18 else cs.p14
+    let defs := if is18 then Src.defs2018 else Src.defs2014
+    let e := srcValue pre defs name
+    let s := entryOf (if is18 then cs.s18 else cs.s14) name
+    let m := entryOf ((if is18 then cs.c18 else cs.c14).map (·.pc)) name
+    s!"ok e {showOptDec e} | s {showOptDec s} | m {showOptDec m}"
 
 def pick (cs : Ctxs) (name : String) : Option (Option Ctx) :=
   if name == "2014" then some cs.c14
@@ -83,6 +114,14 @@ def stepC02 (cs : Ctxs) (line : String) : String :=
         else "bad-op"
       | _, _ => "err"
     | _, _ => "bad-op"
+  | ["S", cn, payload] =>
+    match unhex payload.toList with
+    | some name => stepS cs cn name
+    | none => "bad-op"
+  | ["M", payload] =>
+    match unhex payload.toList with
+    | some t => "ok " ++ hexOf (mangleSrc t) ++ " " ++ hexOf (mangle t)
+    | none => "bad-op"
   | ["F", a] =>
     match unhex a.toList with
     | some ta => (match Dec.parse ta with | some x => s!"ok {showDec x} {x.toF64}" | none => "err")
@@ -90,5 +129,5 @@ def stepC02 (cs : Ctxs) (line : String) : String :=
   | _ => "bad-op"
 
 def main : IO Unit := do
-  let cs : Ctxs := ⟨ctx2014, ctx2018⟩
+  let cs : Ctxs := { c14 := ctx2014, c18 := ctx2018 }
   mainLoop (stepC02 cs)
